@@ -14,7 +14,12 @@
     Every case names the log level the services run with (trace … disabled, written to a discarded writer; the dump
     middleware of the HTTP based services only runs at trace) and bodies come in lengths from 0 to 300 KiB (every
     kind of body at 0, 1, 300, 4096, 16383, 16384, 16385, 65536, 307200 bytes at trace and one other level in every
-    run, plus random lengths); for the proxy the payload its upstream received is compared as well."""
+    run, plus random lengths); for the proxy the payload its upstream received is compared as well.
+    Every case names the `buffer_limit` block of the services (mostly the defaults of the tree under test, which the
+    harness reads from heimdall's configuration loader at the start of the run: 4 KiB to read — most sized bodies are
+    longer; the head of some requests fills what the servers read for it to the last byte) and hosts come with ports
+    spelled out, the default port of the scheme included (`Request.URL.Host`, `Hostname()`, `Port()` are read by
+    templates, CEL expressions and host matchers)."""
 import concurrent.futures
 import copy
 import json
@@ -166,7 +171,9 @@ def spec_diff(case, i, m):
     wire_path = case["req"]["path"]
     spec = m.get("spec") if isinstance(m, dict) else None
     ci = canon_impl(i)
-    if not spec or not spec.get("wellformed") or not isinstance(ci, dict) or "load" in ci:
+    if not spec or not spec.get("wellformed") or not spec.get("fits", True) or not isinstance(ci, dict) \
+            or "load" in ci:
+        # outside the statement: not well-formed, or a head larger than the HTTP based services read (431 there)
         return viol, hits
     if suspicious(i):
         viol.append(("all", "answer (executor failure, twice)", i, None))
@@ -245,6 +252,15 @@ def url_known(u, covered, hits):
     return (not covered) and KF_RAW in hits and u.get("decision") == u.get("proxy", u.get("decision"))
 
 
+def measure_defaults(exe):
+    """the `buffer_limit` defaults of the tree under test, from heimdall's configuration loader (harness op
+    `defaults`); they become the limits of most generated cases and of corpus cases that say `"limits": "default"`"""
+    d = vlib.run_cases([exe], [{"fam": "entryview", "op": "defaults"}])[0]
+    if isinstance(d, dict) and isinstance(d.get("decision"), dict):
+        gen_entryview.set_default_limits(d["decision"])
+    return d
+
+
 def one(exe, case):
     case = gen_entryview.expand(copy.deepcopy(case))
     case.setdefault("impl", impl_variant())
@@ -278,6 +294,14 @@ def candidates(cur):
         c = copy.deepcopy(cur)
         c["log"] = "disabled"
         yield c
+    if cur.get("limits") is not None:
+        c = copy.deepcopy(cur)
+        c.pop("limits")
+        yield c
+        if cur["limits"] != gen_entryview.DEFAULT_LIMITS:
+            c = copy.deepcopy(cur)
+            c["limits"] = dict(gen_entryview.DEFAULT_LIMITS)
+            yield c
     rc = cur.get("respond") or {}
     if rc.get("verbose"):
         c = copy.deepcopy(cur)
@@ -304,6 +328,11 @@ def candidates(cur):
                 if r.get(fld) != val:
                     c = copy.deepcopy(cur)
                     c["sets"][si]["rules"][ri][fld] = val
+                    yield c
+            if len(r.get("hosts") or []) > 1:
+                for hi in range(len(r["hosts"])):
+                    c = copy.deepcopy(cur)
+                    del c["sets"][si]["rules"][ri]["hosts"][hi]
                     yield c
             if len(r["routes"]) > 1:
                 for ti in range(len(r["routes"])):
@@ -348,6 +377,8 @@ def candidates(cur):
         if cur["req"]["headers"][hi][0].lower() == "content-length":
             continue    # goes together with the body
         c = copy.deepcopy(cur)
+        if (c["req"].get("pad") or {}).get("name") == c["req"]["headers"][hi][0]:
+            c["req"].pop("pad")
         del c["req"]["headers"][hi]
         yield c
     if cur["req"].get("body") is not None:
@@ -433,6 +464,22 @@ def features(case):
                               else "16384..65535" if n < 65536 else "65536.."))
     if n >= 16384 and case.get("log") == "trace":
         f.append("body-of-16KiB-or-more-at-trace")
+    lim = case.get("limits")
+    f.append("limits-" + ("none" if lim is None else "default" if lim == gen_entryview.DEFAULT_LIMITS else "other"))
+    if lim and lim.get("read") and n > lim["read"]:
+        f.append("body-longer-than-buffer_limit.read")
+    if r.get("pad"):
+        f.append("head-padded-to-budget" + ("+%d" % r["pad"]["over"] if r["pad"]["over"] > 0 else "-%d" % -r["pad"]["over"]))
+    hn, port = gen_entryview.split_host_port(r["host"])
+    if ":" in r["host"] and port != "":
+        f.append("host-with-port")
+        if port == ("443" if r["tls"] else "80"):
+            f.append("host-with-default-port-of-the-scheme")
+        elif port in ("80", "443"):
+            f.append("host-with-default-port-of-the-other-scheme")
+    if any(h.get("value", "").rstrip("$").endswith((":80", ":443", ":*")) for st in case["sets"] for ru in st["rules"]
+           for h in ru.get("hosts") or []):
+        f.append("host-matcher-looking-at-the-port")
     if "default" in case:
         f.append("default-rule")
     if any(gen_entryview.canon(n).startswith("X-C13-") for n in names):
@@ -478,6 +525,7 @@ def run(R):
         R.violation("Lean driver does not build: " + "; ".join(R.lean.get("failed", []))[:600],
                     {"lean_log": R.lean["log"]}, no_input=True)
         return
+    defaults = measure_defaults(exe)
     corpus = [gen_entryview.expand(c) for c in vlib.load_corpus(PID)]
     n_wf, n_raw, n_nwf, workers = budget(R)
     variant = impl_variant()
@@ -498,9 +546,11 @@ def run(R):
     n_covered = 0
     decs, feats = {}, {}
     nontriv = set()
-    n_wellformed = n_rejected = 0
+    n_wellformed = n_rejected = n_toolarge = 0
     for c, i, m in zip(cases, impl, model):
-        wellformed = isinstance(m, dict) and bool((m.get("spec") or {}).get("wellformed"))
+        wellformed = isinstance(m, dict) and bool((m.get("spec") or {}).get("wellformed")) \
+            and bool(m["spec"].get("fits", True))
+        n_toolarge += isinstance(m, dict) and not (m.get("spec") or {}).get("fits", True)
         d = model_diff(i, m)
         if d:
             bad_model.append((c, i, m, d))
@@ -546,7 +596,14 @@ def run(R):
                 "are created with (trace, debug, info, warn, error, disabled; logger writing to a discarded writer); "
                 "in 8 % a body of a random length up to 300 KiB (JSON, form, YAML, text, truncated JSON), and in every "
                 "run each of these kinds at 0, 1, 300, 4096, 16383, 16384, 16385, 65536, 307200 bytes at trace and at "
-                "one other level behind a rule whose pipeline echoes the body. Each case goes through the "
+                "one other level behind a rule whose pipeline echoes the body; the `buffer_limit` block the services "
+                "are created with (62 % the defaults of the tree under test as heimdall's configuration loader "
+                "reports them — 4 KiB / 4 KiB —, 10 % none, else 512 B … 64 KiB; bodies longer than "
+                "`buffer_limit.read` in every run; in 3 % the head of the message is padded to the last byte the "
+                "HTTP servers read for it, and beyond it in the stream outside the hypotheses); hosts with a port "
+                "spelled out in 30 % (the default port of the scheme and of the other scheme, leading zeros, no "
+                "digits, IPv6 literals), host matchers that look at the port, probes Request.URL.Hostname() / "
+                "Port(). Each case goes through the "
                 "real decision, proxy and Envoy ext_authz services and through the Lean model and reference "
                 "semantics. Non-trivial = a rule (or the default rule) was reached, some finalizer echoes the view, "
                 "and the request has a feature in which the carriers differ (escape in the path, query, repeated or "
@@ -554,6 +611,7 @@ def run(R):
         "entry_point_runs": 3 * len(cases), "corpus_cases": len(corpus), "generated_wellformed": n_wf,
         "fixed_body_length_cases": len(sized), "body_bytes_sent_per_entry_point": sum(len(c["req"]["body"] or "") for c in cases),
         "generated_wellformed_with_forbidden_path_octets": n_raw, "model_variant": "Impl." + variant,
+        "buffer_limit_defaults_of_the_tree": defaults, "head_larger_than_the_services_read": n_toolarge,
         "generated_outside_hypotheses": n_nwf, "wellformed_by_spec": n_wellformed, "covered_by_theorems": n_covered, "rejected_at_load": n_rejected,
         "exhaustive": False,
         "decisions_per_entry_point": dict(sorted(decs.items())),
@@ -581,6 +639,14 @@ def run(R):
         "log level: the services get the logger cmd/serve builds for `log.level`, writing to a discarded writer (text "
         "/ gelf formatting of the real writer is not exercised); the model reads the level in the dump middleware only "
         "(theorem c13_view_independent_of_log_level), the tie varies it on every case",
+        "buffer limits: `serve.<service>.buffer_limit.read` is modelled as http.Server.MaxHeaderBytes (budget for "
+        "request line + header block = limit, or 1 MiB if 0, + 4096; validated at the boundary by padded heads: "
+        "budget -> served, budget + 1 -> 431 at decision and proxy), `write` and the gRPC buffer sizes are read by nothing "
+        "in the model; a request whose head exceeds the budget is outside the statement (Spec.fits): the HTTP based "
+        "services answer 431 themselves, the Envoy service decides it; the defaults are read from "
+        "config.NewConfiguration with a configuration file that says nothing about the services",
+        "the host is sent in the Host line / the `host` attribute as the case writes it; net/url's splitHostPort "
+        "(Hostname(), Port()) is re-modelled and compared on every case",
         "bodies are sent with Content-Length (no chunked transfer coding) and are at most 300 KiB long; values longer "
         "than 1024 bytes are compared by first / last 32 bytes, length and FNV-1a hash; the payload the upstream "
         "application receives is observed at the proxy's upstream only (the gateway in front of the decision service "
@@ -673,6 +739,7 @@ def replay(R, path):
     if exe is None:
         R.violation("harness does not build", {"build_log": R.harness_log[-3000:]}, no_input=True)
         return
+    measure_defaults(exe)
     c = gen_entryview.expand(p["case"] if "case" in p else p)
     driver_cmd(R)
     i, m = one(exe, c)
@@ -682,16 +749,18 @@ def replay(R, path):
     R.coverage.update({"obligations": 1, "discharged": 1, "checker_cmd": "replay", "trusted_base": [],
                        "evaluations": 1, "distinct_nontrivial": 0, "samples": [c]})
     v, h = spec_diff(c, i, m)
+    # a head larger than the HTTP based services read is answered by net/http itself (431): outside the statement
+    fits = not isinstance(m, dict) or bool((m.get("spec") or {}).get("fits", True))
     for k in h:
         R.known_hits[k] = R.known_hits.get(k, 0) + 1
     if v:
         R.violation(describe(v[0]) + original_note(exe, c),
                     {"case": c, "impl": canon_impl(i), "model": vlib.res_of(m),
                      "spec": m.get("spec") if isinstance(m, dict) else None})
-    elif url_diff(i) and not url_known(url_diff(i), bool((m.get("spec") or {}).get("covered")), h):
+    elif fits and url_diff(i) and not url_known(url_diff(i), bool((m.get("spec") or {}).get("covered")), h):
         R.violation("Request.URL.String() differs between the entry points: " + json.dumps(url_diff(i)),
                     {"case": c, "impl": i})
-    elif body_diff(c, i):
+    elif fits and body_diff(c, i):
         R.violation("verbose error body differs between the entry points: " + json.dumps(body_diff(c, i)),
                     {"case": c, "impl": i})
     elif model_diff(i, m):
